@@ -146,6 +146,22 @@ def generate(rng, tier):
         if rng.random() < 0.3:
             s, sb = -s, -sb
         yield Case("f.basecmp", [hx(s), dec(ea), dec(pa), dec(P10[pa]), hx(sb), dec(eb)])
+    # ---- the same float / rational by several routes
+    for _ in range(200 if quick else 6000):
+        nd = rng.choice([1, 2, 3, 9, 19, 20, 38, 39, 40, 60])
+        s = rng.randrange(10 ** (nd - 1), 10 ** nd) if rng.random() < 0.9 else 0
+        if rng.random() < 0.3:
+            s *= 10 ** rng.randrange(1, 5)
+        if rng.random() < 0.5:
+            s = -s
+        yield Case("f.routes", [hx(s), dec(rng.choice([0, 0, 1, -1, 7, -7, 30, -30, rng.randrange(-50, 50)]))])
+    for _ in range(200 if quick else 6000):
+        n = mag(rng, rng.choice([0, 1, 1, 2, 3]), rng.choice(MAG_PATTERNS)) if rng.random() < 0.6 else rng.randrange(0, 1000)
+        d = mag(rng, rng.choice([1, 1, 2, 3]), rng.choice(MAG_PATTERNS)) if rng.random() < 0.6 else rng.randrange(1, 1000)
+        if rng.random() < 0.4 and n:
+            g = rng.choice([2, 3, 6, 1 << 64, (1 << 64) - 1])
+            n, d = n * g, d * g
+        yield Case("q.routes", [hx(-n if rng.random() < 0.5 else n), hx(d)])
     # ---- rationals: Relaxed as given (not reduced) and RBig (reduced)
     for _ in range(900 if quick else 30000):
         def frac():
@@ -193,7 +209,11 @@ RULE = ("integers: values of exactly 0..6,9 (thorough ..100) words in the C09 bi
         "rounding modes; precisions from digits to digits+50; infinities, zeros, trailing-zero significands, exponent gaps at the "
         "thresholds of the precision/digits shortcuts); `f.basecmp`: binary floats converted by with_base::<10>() (exact integers, "
         "possibly with more digits than their new precision) against decimal neighbours; rationals: Relaxed as given (non-reduced "
-        "multiples, neighbours, bit-length shortcut thresholds) and the reduced RBig. Non-trivial := an integer operand above one word, "
+        "multiples, neighbours, bit-length shortcut thresholds) and the reduced RBig; `f.routes` / `q.routes`: one decimal float / "
+        "one rational built by 16 / 15 routes (trailing-zero significands, precision changes incl. unlimited, +0, *1, shifts, "
+        "parsing, integer conversion, rounding-mode change; non-reduced and signed parts, arithmetic round trips, parsing, "
+        "Relaxed->canonicalize) whose representations must be the normalised / reduced one and pairwise ==, cmp Equal (and, for "
+        "RBig, hash-identical). Non-trivial := an integer operand above one word, "
         "every float/rational case; distinct := distinct (op,args) lines.")
 
 REFINED = [
